@@ -33,4 +33,7 @@ theorem package_vars_once :
 /-- state-changing doc-value reader methods are only ever invoked on per-call clones -/
 theorem dv_readers_cloned : ∀ c ∈ Shared.dvReaderMutatorCalls, c.2.2 = "clone" := by decide
 
+/-- the readers a `DocumentValueReader` works on are clones, never the segment's own -/
+theorem dv_reader_map_clones : ∀ s ∈ Shared.dvReaderMapStores, s.2 = "clone" := by decide
+
 end Ice.Bridge
